@@ -40,6 +40,7 @@ class Ref:
         self.done = False           # the multicast has terminated
         self.released = False
         self.present = []           # [(uid, label)] in subscription order
+        self.muted = set()          # labels subscribed by `subfin` (a finished, silent observer): nothing is expected for them
         self.handle = {}            # label -> uid
         self.uid = 0
         self.s = 0
@@ -52,8 +53,8 @@ class Ref:
             d = []
             for v in self.cold:
                 self.t += 1
-                d += [f"{l}:N{v}" for _, l in self.present]
-            d += [f"{l}:C" for _, l in self.present]
+                d += [f"{l}:N{v}" for _, l in self.present if l not in self.muted]
+            d += [f"{l}:C" for _, l in self.present if l not in self.muted]
             self.done = True
             self.present = []
             return d
@@ -62,8 +63,12 @@ class Ref:
 
     def step(self, ev):
         d = []
-        if ev[0] == "sub":
+        if ev[0] in ("sub", "subfin"):
             k = int(ev[1])
+            if ev[0] == "subfin":
+                self.muted.add(k)
+            else:
+                self.muted.discard(k)
             self.uid += 1
             self.handle[k] = self.uid
             if not self.done and not self.released:
@@ -89,7 +94,7 @@ class Ref:
                 if self.wired and not self.done and not self.released:
                     if not term:
                         self.t += 1
-                    d = [f"{l}:{show_notif(n)}" for _, l in self.present]
+                    d = [f"{l}:{show_notif(n)}" for _, l in self.present if l not in self.muted]
                     if term:
                         self.done = True
                         self.present = []
@@ -170,6 +175,17 @@ class C11(Prop):
                     flavors = ("local", "threads") if tier != "quick" else (("local", "threads")[i % 2],)
                     for fl in flavors:
                         out.append(mk_case(kind, fl, src, h + [["q"]], {"kind": kind + "-" + src[0]}))
+        # a subscriber whose observer is ALREADY finished when it subscribes (event `subfin`: a silent probe answering
+        # is_finished() = true — what a completed subject or the notifier side of a finished take_until is): for the shared
+        # observable it is a subscriber like any other; the others must be served as if it were an ordinary one (seed C11-8)
+        for kind in ("share", "publish"):
+            for h in self.histories(kind, True, hl - 1):
+                subs = [j for j, e in enumerate(h) if e[0] == "sub"]
+                for j in subs[:2]:
+                    h2 = [list(e) for e in h]
+                    h2[j] = ["subfin", h2[j][1]]
+                    i += 1
+                    out.append(mk_case(kind, ("local", "threads")[i % 2], ["hot"], h2 + [["q"]], {"kind": kind + "-subfin"}))
         n = 1500 if tier == "quick" else 15000
         for _ in range(n):
             kind = rng.choice(("share", "publish"))
